@@ -467,3 +467,73 @@ Proof.
       rewrite !mem_upd_other by (rewrite ?L1; try assumption; intro; subst; tauto). reflexivity. }
     intros b Hin. left. exact Hin.
 Qed.
+
+(* ------------------------------------------------------------------ the whole representation *)
+(* the four line-table cells of the struct: ln, ln_glob, ln_n, ln_sz *)
+Definition tcells (blk : block) : list val := [hc blk 64; hc blk 65; hc blk 66; hc blk 67].
+Definition Tpred : Type := mem -> list val -> list nat -> text -> Prop.
+(* the table predicate reads the memory only through the blocks of its footprint *)
+Definition T_frame (T : Tpred) : Prop := forall m m' cs fp t, T m cs fp t -> keeps fp m m' -> T m' cs fp t.
+
+Definition owned (bl bh : nat) (hblk : block) (n : nat) : list nat := bl :: bh :: log_blocks hblk 0 n.
+
+Record urep (T : Tpred) (m : mem) (bl : nat) (blk : block) (bh : nat) (hblk : block) (lb : lbuf) : Prop := mk_urep {
+  u_blk : nth_error m bl = Some blk;
+  u_len : length blk = LBUF_CELLS;
+  u_marks : ints_upto blk 64;
+  u_lnn : nth_error blk L_ln_n = Some (VInt (Z.of_nat (length (ln lb))));
+  u_lnr : i31 (length (ln lb));
+  u_useq : nth_error blk L_useq = Some (VInt (useq lb));
+  u_hist : nth_error blk L_hist = Some (VPtr bh 0);
+  u_sz : nth_error blk L_hist_sz = Some (VInt (Z.of_nat (hist_sz lb)));
+  u_n : nth_error blk L_hist_n = Some (VInt (Z.of_nat (length (hist lb))));
+  u_u : nth_error blk L_hist_u = Some (VInt (Z.of_nat (hist_u lb)));
+  u_zero : nth_error blk L_useq_zero = Some (VInt (useq_zero lb));
+  u_last : nth_error blk L_useq_last = Some (VInt (useq_last lb));
+  u_rng : i32 (useq lb) /\ (hist_u lb <= length (hist lb) <= hist_sz lb)%nat /\ (0 < hist_sz lb)%nat /\ i31 (hist_sz lb);
+  u_hblk : nth_error m bh = Some hblk;
+  u_hlen : length hblk = (9 * hist_sz lb)%nat;
+  u_ents : forall i, (i < length (hist lb))%nat -> ent_rep m hblk i (nth i (hist lb) dflt);
+  u_own : NoDup (owned bl bh hblk (length (hist lb)));
+  u_tab : exists fp, T m (tcells blk) fp (ln lb) /\ (forall b, In b fp -> ~ In b (owned bl bh hblk (length (hist lb))))
+}.
+
+Lemma in_log_blocks hblk i n b : (i < n)%nat -> In b (ent_blocks hblk i) -> In b (log_blocks hblk 0 n).
+Proof. intros Hi Hb. unfold log_blocks. apply in_flat_map. exists i. split; [apply in_seq; lia|exact Hb]. Qed.
+Lemma mark_blocks_ent hblk i b : In b (mark_blocks hblk i) -> In b (ent_blocks hblk i).
+Proof. intro H. rewrite ent_blocks_eq. apply in_or_app. right. apply in_or_app. right. exact H. Qed.
+
+Lemma hc_eq (a b : block) j v : nth_error a j = Some v -> nth_error b j = nth_error a j -> hc b j = hc a j.
+Proof. intros H E. unfold hc. rewrite (nth_error_nth a j VUndef H). apply nth_error_nth. rewrite E. exact H. Qed.
+Lemma tcells_eq (a b : block) : length a = LBUF_CELLS -> (forall j, (64 <= j < 68)%nat -> nth_error b j = nth_error a j) -> tcells b = tcells a.
+Proof.
+  intros L E. unfold tcells.
+  assert (X : forall j, (64 <= j < 68)%nat -> hc b j = hc a j).
+  { intros j Hj. destruct (nth_error a j) as [v|] eqn:C; [apply (hc_eq a b j v C); rewrite E by exact Hj; reflexivity|].
+    apply nth_error_None in C. rewrite L in C. unfold LBUF_CELLS in C. lia. }
+  rewrite !X by lia. reflexivity.
+Qed.
+
+(* the struct block changes in its marks and in hist_u only: the representation follows with the new cursor *)
+Lemma urep_struct T (m : mem) bl (blk blk' : block) bh hblk lb u : T_frame T -> urep T m bl blk bh hblk lb ->
+  length blk' = LBUF_CELLS -> ints_upto blk' 64 ->
+  (forall j, (64 <= j)%nat -> j <> L_hist_u -> nth_error blk' j = nth_error blk j) ->
+  nth_error blk' L_hist_u = Some (VInt (Z.of_nat u)) -> (u <= length (hist lb))%nat ->
+  urep T (upd m bl blk') bl blk' bh hblk (set_hu lb u).
+Proof.
+  intros TF [Hb L I Cn Rn Cq Ch Csz Cnn Cu Cz Cl Rg Hh Hl He Ho (fp & Ht & Hfp)] L' I' E Cu' Hu.
+  assert (Hbl : (bl < length m)%nat) by (apply nth_error_Some; congruence).
+  assert (Nhl : bh <> bl) by (intro X; subst; inversion Ho as [|? ? Hn _]; apply Hn; left; reflexivity).
+  assert (K : forall bs, ~ In bl bs -> keeps bs m (upd m bl blk')).
+  { intros bs Hn b Hb'. apply mem_upd_other; [exact Hbl|]. intro X; subst. contradiction. }
+  constructor; cbn [set_hu ln hist hist_u hist_sz useq useq_zero useq_last];
+    try (rewrite E by (unfold L_hist_u, L_ln_n, L_useq, L_hist, L_hist_sz, L_hist_n, L_useq_zero, L_useq_last; lia); assumption); try assumption.
+  - apply mem_upd_same. exact Hbl.
+  - destruct Rg as (R1 & (R2a & R2b) & R3 & R4). split; [exact R1|]. split; [split; [exact Hu|exact R2b]|]. split; assumption.
+  - rewrite mem_upd_other by assumption. exact Hh.
+  - intros i Hi. apply (ent_rep_keeps m); [apply He; exact Hi|]. apply K. intro X.
+    inversion Ho as [|? ? Hn _]. apply Hn. right. apply (in_log_blocks hblk i); assumption.
+  - exists fp. split; [|exact Hfp].
+    rewrite (tcells_eq blk blk' L) by (intros j Hj; apply E; unfold L_hist_u; lia).
+    apply (TF m); [exact Ht|]. apply K. intro X. apply (Hfp bl X). left. reflexivity.
+Qed.
